@@ -35,12 +35,16 @@ RULE = ("well-formed networks of 2-14 lanelets on a grid of cells (10 x 4 m pitc
         "least one step removes an element that another remaining element referred to")
 ASSUME = ["cut-out shapes are rectangles, circles and convex polygons whose boundary keeps a distance > 0.2 m from every "
           "lanelet cell boundary; which lanelets a shape selects is computed from the cell coordinates (not by shapely) "
-          "for the oracle and passed to the model as a boolean per lanelet",
+          "for the oracle and passed to the model as a boolean per lanelet; for a circle the disc the library exports is "
+          "used (half the radius: C06's known finding Circle.shapely_object:radius), with the margin kept for both radii",
           "create_from_lanelet_network / create_from_lanelet_list are called with cleanup_ids=True (the default)",
           "an incoming element none of whose incoming lanelets remains, and an intersection left without such an "
-          "incoming element, may be dropped by a cut-out (the scenario format cannot express them)",
-          "left_of (an incoming-element id) is not among the references the property lists: it must stay unchanged "
-          "on kept incoming elements while its target remains, and is not judged otherwise",
+          "incoming element, may be dropped by a cut-out (the scenario format cannot express them); an incoming "
+          "element dropped although incoming lanelets of it remain is reported (known finding)",
+          "left_of (an incoming-element id) must stay unchanged on kept incoming elements while the incoming element it "
+          "names remains and must not name an incoming element that is gone",
+          "Scenario-level list removals name distinct elements that are contained (anything else raises KeyError in "
+          "the id bookkeeping, property C09)",
           "TrafficSign.first_occurrence, adjacent areas and the obstacle registries of a lanelet are not references "
           "the property lists"]
 
@@ -159,17 +163,28 @@ def sat_gap(P, Q):
     return best
 
 
-def gap(shape, cell):
+def circ_factor():
+    """radius of the disc the library exports for Circle(1.0).  Circle.shapely_object buffers with radius / 2 (known
+    finding of C06, 'Circle.shapely_object:radius'); which lanelets a circle selects is geometry, not C10's subject, so
+    the selection is computed for the disc that is exported (1.0 once that finding is repaired)."""
+    b = Circle(1.0).shapely_object.bounds
+    return round((b[2] - b[0]) / 2, 6)
+
+
+CIRC = circ_factor()
+
+
+def gap(shape, cell, factor=None):
     x0, y0, x1, y1 = cell_box(cell)
     if shape["k"] == "circ":
         cx, cy = shape["c"]
         dx, dy = max(x0 - cx, 0, cx - x1), max(y0 - cy, 0, cy - y1)
-        return math.hypot(dx, dy) - shape["r"]
+        return math.hypot(dx, dy) - shape["r"] * (CIRC if factor is None else factor)
     return sat_gap(poly_of(shape), [[x0, y0], [x1, y0], [x1, y1], [x0, y1]])
 
 
 def shape_ok(shape, spec):
-    return all(abs(gap(shape, la["cell"])) > 0.2 for la in spec["lanelets"])
+    return all(abs(gap(shape, la["cell"], f)) > 0.2 for la in spec["lanelets"] for f in (0.5, 1.0))
 
 
 def make_shape(shape):
@@ -320,6 +335,11 @@ def apply_op(sc, op, spec):
     return sc, term, None
 
 
+def sig_name(op):
+    """call site as it appears in failure signatures"""
+    return "create_from_lanelet_network" if op["op"] == "cutout" else op_name(op)
+
+
 def op_name(op):
     o = op["op"]
     if o == "n_remove":
@@ -333,8 +353,13 @@ def op_name(op):
 
 
 # ------------------------------------------------------------------------------------ the property, executable
+TOLERATED = ("incoming element whose incoming lanelets remain is dropped",
+             "intersection not selected for removal is missing although incoming lanelets of it remain")
+
+
 def judge(before, after, op, spec):
-    """the statement of C10 for one step.  Returns None | (problem, detail)."""
+    """the statement of C10 for one step.  Returns the list of (problem, detail) found (empty: the step is fine)."""
+    out = []
     o = op["op"]
     L0, S0, T0, X0 = before["lanelets"], before["signs"], before["lights"], before["inters"]
     L1, S1, T1, X1 = after["lanelets"], after["signs"], after["lights"], after["inters"]
@@ -349,35 +374,36 @@ def judge(before, after, op, spec):
         rmL = set(L0) - set(op["ids"])
     keepL = set(L0) - rmL
     if set(L1) != keepL:
-        return ("wrong set of lanelets remains", f"expected {sorted(keepL)}, found {sorted(L1)}")
+        return [("wrong set of lanelets remains", f"expected {sorted(keepL)}, found {sorted(L1)}")]
     # signs / lights: leave only if selected, or together with lanelets if no remaining lanelet references them
     for nm, A0, A1, rm, fld in (("sign", S0, S1, rmS, "signs"), ("light", T0, T1, rmT, "lights")):
         if not set(A1) <= set(A0):
-            return (f"{nm} appeared", "")
+            out.append((f"{nm} appeared", f"{sorted(set(A1) - set(A0))}"))
         if rm & set(A1):
-            return (f"removed {nm} still present", f"{sorted(rm & set(A1))}")
+            out.append((f"removed {nm} still present", f"{sorted(rm & set(A1))}"))
         gone = set(A0) - set(A1) - rm
         if not gone or o == "from_list":  # a network made from a list of lanelets holds lanelets only
             continue
         still_ref = {z for i in keepL for z in L0[i][fld]}
         if gone & still_ref:
-            return (f"{nm} removed although a remaining lanelet references it", f"{sorted(gone & still_ref)}")
+            out.append((f"{nm} removed although a remaining lanelet references it", f"{sorted(gone & still_ref)}"))
         if o in ("n_remove", "s_remove"):  # "together with a lanelet": one of the removed lanelets referenced it
             was_ref = {z for i in rmL for z in L0[i][fld]}
             if gone - was_ref:
-                return (f"{nm} not selected for removal is missing", f"{sorted(gone - was_ref)}")
+                out.append((f"{nm} not selected for removal is missing", f"{sorted(gone - was_ref)}"))
     # intersections
     if not set(X1) <= set(X0):
-        return ("intersection appeared", "")
+        return out + [("intersection appeared", f"{sorted(set(X1) - set(X0))}")]
     if rmX & set(X1):
-        return ("removed intersection still present", f"{sorted(rmX & set(X1))}")
+        out.append(("removed intersection still present", f"{sorted(rmX & set(X1))}"))
     if o != "from_list":
-        for xi in set(X0) - set(X1) - rmX:
+        for xi in sorted(set(X0) - set(X1) - rmX):
             alive = [i["id"] for i in X0[xi]["incs"] if set(i["lanelets"]) & keepL]
             if o != "cutout" or alive:
-                return ("intersection not selected for removal is missing" + (
+                out.append(("intersection not selected for removal is missing" + (
                     " although incoming lanelets of it remain" if o == "cutout" else ""),
-                    f"intersection {xi}, incomings with remaining lanelets {alive}")
+                    f"intersection {xi}, incomings with remaining lanelets {alive}"))
+
     # 2. content of every remaining element = old content minus references to what left
     def flt(l, keep):
         return sorted(z for z in l if z in keep)
@@ -393,39 +419,49 @@ def judge(before, after, op, spec):
                "types": a["types"], "payload": a["payload"]}
         for k, v in exp.items():
             if b[k] != v:
-                return (f"lanelet {k}: " + _what(_refs(k, b[k]), {"signs": keepS, "lights": keepT}.get(k, keepL), "lanelet")
-                        if k != "stop" else "lanelet stop line: " + _what(
-                            [z for z in b[k][0] if z not in keepS] + [z for z in b[k][1] if z not in keepT]
-                            if b[k] else [], set(), "lanelet"),
-                        f"lanelet {i}: {k} was {a[k]}, is {b[k]}, expected {v}")
+                if k == "stop":
+                    pr = "lanelet stop line: " + _what(
+                        ([z for z in b[k][0] if z not in keepS] + [z for z in b[k][1] if z not in keepT]) if b[k] else [],
+                        set(), "lanelet")
+                else:
+                    pr = f"lanelet {k}: " + _what(_refs(k, b[k]), {"signs": keepS, "lights": keepT}.get(k, keepL), "lanelet")
+                out.append((pr, f"lanelet {i}: {k} was {a[k]}, is {b[k]}, expected {v}"))
     for nm, A0, A1 in (("sign", S0, S1), ("light", T0, T1)):
         for z in A1:
-            if A0[z] != A1[z]:
-                return (f"content of a remaining {nm} changed", f"{nm} {z}")
+            if z in A0 and A0[z] != A1[z]:
+                out.append((f"content of a remaining {nm} changed", f"{nm} {z}"))
     for xi in sorted(X1):
         a, b = X0[xi], X1[xi]
         if b["cross"] != flt(a["cross"], keepL):
-            return ("intersection crossings: " + _what(b["cross"], keepL, "intersection"),
-                    f"intersection {xi}: crossings {a['cross']} -> {b['cross']}")
+            out.append(("intersection crossings: " + _what(b["cross"], keepL, "intersection"),
+                        f"intersection {xi}: crossings {a['cross']} -> {b['cross']}"))
         old = {i["id"]: i for i in a["incs"]}
         new = {i["id"]: i for i in b["incs"]}
         if not set(new) <= set(old) or len(new) != len(b["incs"]):
-            return ("incoming element appeared", f"intersection {xi}")
-        for ii in set(old) - set(new):
+            out.append(("incoming element appeared", f"intersection {xi}"))
+            continue
+        for ii in sorted(set(old) - set(new)):
             rest = flt(old[ii]["lanelets"], keepL)
             if o != "cutout" or rest:
-                return ("incoming element whose incoming lanelets remain is dropped" if rest else
-                        "incoming element dropped", f"intersection {xi} incoming {ii}: remaining incoming lanelets "
-                        f"{rest}, remaining successors {flt(old[ii]['right'] + old[ii]['straight'] + old[ii]['left'], keepL)}")
+                out.append(("incoming element whose incoming lanelets remain is dropped" if rest else
+                            "incoming element dropped", f"intersection {xi} incoming {ii}: remaining incoming lanelets "
+                            f"{rest}, remaining successors {flt(old[ii]['right'] + old[ii]['straight'] + old[ii]['left'], keepL)}"))
         for ii, nb in new.items():
             oa = old[ii]
             for k in ("lanelets", "right", "straight", "left"):
                 if nb[k] != flt(oa[k], keepL):
-                    return (f"incoming {k}: " + _what(nb[k], keepL, "intersection"),
-                            f"intersection {xi} incoming {ii}: {k} {oa[k]} -> {nb[k]}")
-            if oa["left_of"] in new and nb["left_of"] != oa["left_of"]:
-                return ("left_of between remaining incoming elements changed", f"intersection {xi} incoming {ii}")
-    return None
+                    out.append((f"incoming {k}: " + _what(nb[k], keepL, "intersection"),
+                                f"intersection {xi} incoming {ii}: {k} {oa[k]} -> {nb[k]}"))
+            # left_of: unchanged while the incoming element it names remains, no reference to a dropped one
+            if oa["left_of"] in new:
+                if nb["left_of"] != oa["left_of"]:
+                    out.append(("left_of between remaining incoming elements changed", f"intersection {xi} incoming {ii}"))
+            elif nb["left_of"] is not None:
+                out.append(("left_of names an incoming element that is not part of the intersection any more"
+                            if nb["left_of"] == oa["left_of"] else "left_of changed",
+                            f"intersection {xi} incoming {ii}: left_of {oa['left_of']} -> {nb['left_of']}, "
+                            f"remaining incoming elements {sorted(new)}"))
+    return out
 
 
 def _refs(k, v):
@@ -443,10 +479,12 @@ def _what(ids, keep, owner):
 
 
 def execute(case, chooser=None):
+    """runs the case; returns (failures [(signature, what)], trace [(coq op, observation)], start observation).
+    A step whose only problems are the TOLERATED ones (recorded in known_findings.json) does not end the sequence."""
     spec = case["net"]
     sc = holder(build(spec))
     start = observe(sc.lanelet_network)
-    trace, failure = [], None
+    trace, failures = [], []
     ops = case["ops"]
     step = 0
     while True:
@@ -462,20 +500,26 @@ def execute(case, chooser=None):
         before = observe(sc.lanelet_network)
         sc, term, exc = apply_op(sc, op, spec)
         if exc:
-            failure = (f"{op_name(op)}:raises {exc}", f"step {step} {op}: raises {exc}")
+            failures.append((f"{sig_name(op)}:raises {exc}", f"step {step} {op}: raises {exc}"))
             break
         after = observe(sc.lanelet_network)
         trace.append((term, after))
-        pr = judge(before, after, op, spec)
-        if pr:
-            failure = (f"{op_name(op)}:{pr[0]}", f"step {step} {op}: {pr[0]}; {pr[1]}")
+        prs = judge(before, after, op, spec)
+        for pr in prs:
+            failures.append((f"{sig_name(op)}:{pr[0]}", f"step {step} {op}: {pr[0]}; {pr[1]}"))
+        if any(pr[0] not in TOLERATED for pr in prs):
             break
         step += 1
-    return failure, trace, start
+    return failures, trace, start
 
 
 def oracle(case):
-    return execute({"net": case["net"], "ops": list(case["ops"])})[0]
+    fs = execute({"net": case["net"], "ops": list(case["ops"])})[0]
+    return fs[0] if fs else None
+
+
+def signatures(case):
+    return [f[0] for f in execute({"net": case["net"], "ops": list(case["ops"])})[0]]
 
 
 def make_chooser(rng, spec, n_steps):
@@ -510,8 +554,8 @@ def make_chooser(rng, spec, n_steps):
 def gen_case(rng):
     spec = gen_net(rng)
     case = {"net": spec, "ops": []}
-    failure, trace, start = execute(case, make_chooser(rng, spec, rng.randint(1, 6)))
-    return case, failure, trace, start
+    failures, trace, start = execute(case, make_chooser(rng, spec, rng.randint(1, 6)))
+    return case, failures, trace, start
 
 
 # ------------------------------------------------------------------------------------ Coq terms
@@ -590,16 +634,16 @@ def run(ctx):
     ctx.build_props(extra_targets=["Corr/C10.vo"])
     if ctx.tier == "thorough":
         ctx.coqchk()
-    n = ctx.n(450, 16000)
+    n = ctx.n(1200, 16000)
     items = []
     for c in load_corpus(ctx.prop):
-        f, t, s = execute({"net": c["net"], "ops": list(c["ops"])})
-        if f:
+        fs, t, s = execute({"net": c["net"], "ops": list(c["ops"])})
+        for f in fs:
             ctx.fail(f[0], f[1], c)
-        else:
-            items.append((c, t, s))
+        ctx.evaluations += len(t)
+        items.append((c, t, s))
     for _ in range(n):
-        case, failure, trace, start = gen_case(ctx.rng)
+        case, failures, trace, start = gen_case(ctx.rng)
         for k, _ in enumerate(trace):
             ctx.evaluations += 1
             nm = op_name(case["ops"][k])
@@ -609,10 +653,9 @@ def run(ctx):
             ctx.distinct.add(sha(case))
             if len(ctx.samples) < 2 and len(case["net"]["lanelets"]) <= 4:
                 ctx.samples.append(case)
-        if failure:
-            ctx.evaluations += 1
-            ctx.fail(failure[0], failure[1], shrink(case))
-            trace = trace  # the steps before the failing one still take part in the correspondence
+        for f in failures:  # the steps up to the failing one still take part in the correspondence
+            seen = any(y["signature"] == f[0] for y in ctx.failures)  # only the first replay of a signature is kept
+            ctx.fail(f[0], f[1], case if seen else shrink(case, f[0]))
         items.append((case, trace, start))
     if not ctx.samples and items:
         ctx.samples.append(items[0][0])
@@ -620,24 +663,25 @@ def run(ctx):
     return ctx.finish(RULE, assumptions=ASSUME)
 
 
-def shrink(case):
-    base = oracle(case)
-    if not base:
-        return case
+def shrink(case, sig):
+    """a shorter operation sequence on the same network that still shows the failure [sig]"""
+    def shows(ops):
+        try:
+            return sig in signatures({"net": case["net"], "ops": ops})
+        except Exception:  # noqa  (an op may name an element that is gone once an earlier op is deleted)
+            return False
+
     ops = list(case["ops"])
+    if not shows(ops):
+        return case
     for k in range(len(ops)):
-        r = oracle({"net": case["net"], "ops": ops[:k + 1]})
-        if r and r[0] == base[0]:
+        if shows(ops[:k + 1]):
             ops = ops[:k + 1]
             break
     i = 0
     while i < len(ops) - 1:
         trial = ops[:i] + ops[i + 1:]
-        try:
-            r = oracle({"net": case["net"], "ops": trial})
-        except Exception:  # noqa  (an op may name an element that is gone once an earlier op is deleted)
-            r = None
-        if r and r[0] == base[0]:
+        if shows(trial):
             ops = trial
         else:
             i += 1
